@@ -13,144 +13,14 @@
    are processed.  [... true ...] is the code after the fix (Lstat first). *)
 From Coq Require Import List ZArith Bool.
 Import ListNotations.
-From GU Require Import C04.Model C04.Proofs.
+From GU Require Import C04.Facts C04.Gen C04.Model C04.Proofs.
 
-(* ---- confinement: whatever the fuel, whatever the result ---- *)
-
-(* Rm / RemoveWithContext / RemoveWithContextAndExclusionPatterns / RemoveWithPrivileges (success path):
-   every entry that is not at or below p — in particular everything reachable from the tree only through a link —
-   is exactly what it was: same kind, same content, same link target. *)
-Theorem remove_confined : forall excl_name excl_path cancelled fuel s p,
-  dirs_above s p ->
-  forall q, ~ under p q ->
-  lookup (fst (remove_top excl_name excl_path true cancelled fuel s p)) q = lookup s q.
-Proof. exact remove_confined_l. Qed.
-Print Assumptions remove_confined.
-
-(* CleanDir...: the directory handed in is a real directory (or a file, or absent), not itself a link *)
-Theorem clean_dir_confined : forall excl_name excl_path cancelled fuel s p,
-  dirs_above s p -> not_link (lookup s p) ->
-  forall q, ~ under p q ->
-  lookup (fst (clean_dir excl_name excl_path true cancelled fuel s p)) q = lookup s q.
-Proof. exact clean_dir_confined_l. Qed.
-Print Assumptions clean_dir_confined.
-
-Theorem gc_confined : forall cancelled old ord fuel s root,
-  dirs_above s root -> not_link (lookup s root) ->
-  forall q, ~ under root q ->
-  lookup (fst (garbage_collect true cancelled old ord fuel s root)) q = lookup s q.
-Proof. exact gc_confined_l. Qed.
-Print Assumptions gc_confined.
-
-(* ---- termination: with Lstat first the recursion only descends into real directories, so fuel bounded by the number
-   of entries at or below p is always enough (EFuel is the model's mark of "did not come back") ---- *)
-
-Theorem remove_terminates : forall excl_name excl_path cancelled fuel s p,
-  dirs_above s p -> size_below s p < fuel ->
-  snd (remove_top excl_name excl_path true cancelled fuel s p) <> Err EFuel.
-Proof. exact remove_terminates_l. Qed.
-Print Assumptions remove_terminates.
-
-Theorem clean_dir_terminates : forall excl_name excl_path cancelled fuel s p,
-  dirs_above s p -> not_link (lookup s p) -> size_below s p < fuel ->
-  snd (clean_dir excl_name excl_path true cancelled fuel s p) <> Err EFuel.
-Proof. exact clean_dir_terminates_l. Qed.
-Print Assumptions clean_dir_terminates.
-
-(* the out-of-fuel mark of a child is propagated (all other errors of children are dropped, as in the code) *)
-Theorem gc_terminates : forall cancelled old ord fuel s root,
-  dirs_above s root -> not_link (lookup s root) -> size_below s root + 1 < fuel ->
-  snd (garbage_collect true cancelled old ord fuel s root) <> Err EFuel.
-Proof. exact gc_terminates_l. Qed.
-Print Assumptions gc_terminates.
-
-(* ---- completeness ---- *)
-
-(* no exclusion, live context, sufficient fuel: the call SUCCEEDS and nothing is left at or below p — links (dangling
-   or not) included, since [lookup] does not follow them.  No premise about the result is needed. *)
-Theorem remove_succeeds_and_is_complete : forall excl_name excl_path fuel s p,
-  (forall n, excl_name n = false) -> (forall q, excl_path q = false) ->
-  wf s -> dirs_above s p -> size_below s p < fuel ->
-  snd (remove_top excl_name excl_path true false fuel s p) = Ok /\
-  forall q, under p q -> lookup (fst (remove_top excl_name excl_path true false fuel s p)) q = None.
-Proof. exact remove_succeeds_l. Qed.
-Print Assumptions remove_succeeds_and_is_complete.
-
-Theorem clean_dir_succeeds_and_is_complete : forall excl_name excl_path fuel s p,
-  (forall n, excl_name n = false) -> (forall q, excl_path q = false) ->
-  wf s -> dirs_above s p -> lookup s p = Some EDir -> size_below s p < fuel ->
-  snd (clean_dir excl_name excl_path true false fuel s p) = Ok /\
-  lookup (fst (clean_dir excl_name excl_path true false fuel s p)) p = Some EDir /\
-  forall q, under p q -> q <> p -> lookup (fst (clean_dir excl_name excl_path true false fuel s p)) q = None.
-Proof. exact clean_dir_succeeds_l. Qed.
-Print Assumptions clean_dir_succeeds_and_is_complete.
-
-(* the conditional form, for any fuel and either state of the context: whenever the call reports success *)
-Theorem remove_complete : forall excl_name excl_path cancelled fuel s p,
-  (forall n, excl_name n = false) -> (forall q, excl_path q = false) ->
-  wf s -> dirs_above s p ->
-  snd (remove_top excl_name excl_path true cancelled fuel s p) = Ok ->
-  forall q, under p q -> lookup (fst (remove_top excl_name excl_path true cancelled fuel s p)) q = None.
-Proof.
-  intros en ep c fuel s p Hen Hep Hwf Hd Hok. exact (remove_complete_l en ep Hen Hep c fuel s p p Hwf Hd Hok).
-Qed.
-Print Assumptions remove_complete.
-
-Theorem clean_dir_complete : forall excl_name excl_path cancelled fuel s p,
-  (forall n, excl_name n = false) -> (forall q, excl_path q = false) ->
-  wf s -> dirs_above s p -> lookup s p = Some EDir ->
-  snd (clean_dir excl_name excl_path true cancelled fuel s p) = Ok ->
-  lookup (fst (clean_dir excl_name excl_path true cancelled fuel s p)) p = Some EDir /\
-  forall q, under p q -> q <> p -> lookup (fst (clean_dir excl_name excl_path true cancelled fuel s p)) q = None.
-Proof. exact clean_dir_complete_l. Qed.
-Print Assumptions clean_dir_complete.
-
-(* ---- exclusions (the rule of the D11 repair: caller's path for the top entry, entry name below it) ----
-   [protected]: p itself when the caller's path is excluded; below p, an entry whose own name is excluded or that lies
-   below a directory whose name is excluded.  Such an entry survives unchanged and all its ancestors remain directories,
-   whatever the call returns. *)
-Theorem remove_keeps_excluded : forall excl_name excl_path cancelled fuel s p,
-  wf s -> dirs_above s p ->
-  forall q, protected excl_name excl_path p q -> lookup s q <> None ->
-  survives_with_ancestors s (fst (remove_top excl_name excl_path true cancelled fuel s p)) q.
-Proof. exact remove_keeps_excluded_l. Qed.
-Print Assumptions remove_keeps_excluded.
-
-Theorem clean_dir_keeps_excluded : forall excl_name excl_path cancelled fuel s p,
-  wf s -> dirs_above s p -> not_link (lookup s p) ->
-  forall q, protected_below excl_name excl_path p q -> lookup s q <> None ->
-  survives_with_ancestors s (fst (clean_dir excl_name excl_path true cancelled fuel s p)) q.
-Proof. exact clean_dir_keeps_excluded_l. Qed.
-Print Assumptions clean_dir_keeps_excluded.
-
-(* ---- the code BEFORE the fix (Stat-based tests only), kept as documentation of the repaired defect D10; the harness
-   replays these witnesses (tree/sub/lnk -> outside + tree/dangling; tree/a/up -> tree) on every run ---- *)
-Theorem remove_refuted_without_lstat :
-  exists s p q, dirs_above s p /\ ~ under p q /\
-    snd (remove_top noex_n noex_p false false 10 s p) = Ok /\
-    lookup (fst (remove_top noex_n noex_p false false 10 s p)) q <> lookup s q /\     (* an outside file is deleted *)
-    lookup (fst (remove_top noex_n noex_p false false 10 s p)) p <> None.              (* and the tree is still there *)
-Proof.
-  exists witness, [nm 3], [nm 1; nm 2].
-  destruct without_lstat_outside_deleted as [H1 [H2 [H3 H4]]].
-  split; [exact witness_dirs_above|]. split; [exact witness_not_under|]. split; [exact H1|].
-  split; [rewrite H2, H3; discriminate | rewrite H4; discriminate].
-Qed.
-Print Assumptions remove_refuted_without_lstat.
-
-(* a link to an ancestor: the fuel that remove_terminates proves sufficient for the repaired code — and seven times
-   more — runs out in the old code, which walks tree/a/up/a/up/... (on the OS: until ELOOP; exponentially many calls
-   when the directories have several entries) *)
-Theorem remove_terminates_refuted_without_lstat :
-  exists s p, dirs_above s p /\ size_below s p < 4 /\
-    snd (remove_top noex_n noex_p true false 4 s p) = Ok /\
-    snd (remove_top noex_n noex_p false false 4 s p) = Err EFuel /\
-    snd (remove_top noex_n noex_p false false 30 s p) = Err EFuel.
-Proof.
-  exists loop_witness, [nm 3]. destruct loop_witness_facts as [H0 [H1 [H2 H3]]].
-  split; [exact loop_witness_dirs_above|]. split; [rewrite H0; repeat constructor|]. repeat split; assumption.
-Qed.
-Print Assumptions remove_terminates_refuted_without_lstat.
+(* Gen.rm / Gen.gc / Gen.priv are GENERATED from files.go and platform/deletion*.go on every run.  Each theorem is stated
+   for the model instantiated with them; its proof first checks, by computation, that the generated facts meet the
+   condition the theorem needs (rm_ok / gc_ok / priv_ok) — a changed fact breaks the theorems that depend on it. *)
+Ltac by_rm L := pattern Gen.rm; apply with_rm_ok; [vm_compute; reflexivity | exact L].
+Ltac by_rm_gc L := pattern Gen.rm, Gen.gc; apply with_rm_gc_ok; [vm_compute; reflexivity | vm_compute; reflexivity | exact L].
+Ltac by_priv L := pattern Gen.priv; apply with_priv_ok; [vm_compute; reflexivity | exact L].
 
 (* ---- RemoveWithPrivileges: first attempt, take ownership of dir (Chown follows links), second attempt, forced
    removal.  Ownership is part of the state.  Whatever the two ordinary attempts and the forced removal do — they may
@@ -159,16 +29,17 @@ Print Assumptions remove_terminates_refuted_without_lstat.
 Theorem remove_with_privileges_confined : forall pass1 pass2 force me s o p,
   pass_confined pass1 -> pass_confined pass2 -> pass_confined force -> dirs_above s p ->
   forall q, ~ under p q ->
-    lookup (fst (fst (remove_with_privileges pass1 pass2 force true me s o p))) q = lookup s q /\
-    snd (fst (remove_with_privileges pass1 pass2 force true me s o p)) q = o q.
-Proof. exact privileges_confined_l. Qed.
+    lookup (fst (fst (remove_with_privileges pass1 pass2 force (pv_link_guard Gen.priv) me s o p))) q = lookup s q /\
+    snd (fst (remove_with_privileges pass1 pass2 force (pv_link_guard Gen.priv) me s o p)) q = o q.
+Proof. by_priv privileges_confined_l. Qed.
 Print Assumptions remove_with_privileges_confined.
 
-(* the attempts and the forced removal of the library satisfy the premise *)
-Theorem library_passes_confined : forall cancelled fuel,
-  pass_confined (remove0 true cancelled fuel) /\ pass_confined force_remove.
-Proof. intros c fuel. split; [apply remove0_pass_confined | exact force_remove_pass_confined]. Qed.
-Print Assumptions library_passes_confined.
+
+(* the forced removal of the generated facts is rm -r -f -- path on the path as given (no operand lost, no link
+   resolved first), and the ownership change is the non-recursive one behind the Lstat guard *)
+Theorem generated_privileges_facts : priv_ok Gen.priv = true /\ library_force Gen.priv = force_remove.
+Proof. split; vm_compute; reflexivity. Qed.
+Print Assumptions generated_privileges_facts.
 
 (* before the fix (no Lstat before ChangeOwnership): RemoveWithPrivileges(link to an outside directory) whose first
    attempt fails re-owns the outside directory; replayed by the harness on every run *)
@@ -184,9 +55,158 @@ Proof.
 Qed.
 Print Assumptions privileges_refuted_without_link_check.
 
+(* ---- confinement: whatever the fuel, whatever the result ---- *)
+
+(* Rm / RemoveWithContext / RemoveWithContextAndExclusionPatterns / RemoveWithPrivileges (success path):
+   every entry that is not at or below p — in particular everything reachable from the tree only through a link —
+   is exactly what it was: same kind, same content, same link target. *)
+Theorem remove_confined : forall excl_name excl_path cancelled fuel s p,
+  dirs_above s p ->
+  forall q, ~ under p q ->
+  lookup (fst (remove_top excl_name excl_path Gen.rm cancelled fuel s p)) q = lookup s q.
+Proof. by_rm remove_confined_l. Qed.
+Print Assumptions remove_confined.
+
+(* CleanDir...: the directory handed in is a real directory (or a file, or absent), not itself a link *)
+Theorem clean_dir_confined : forall excl_name excl_path cancelled fuel s p,
+  dirs_above s p -> not_link (lookup s p) ->
+  forall q, ~ under p q ->
+  lookup (fst (clean_dir excl_name excl_path Gen.rm cancelled fuel s p)) q = lookup s q.
+Proof. by_rm clean_dir_confined_l. Qed.
+Print Assumptions clean_dir_confined.
+
+
+(* ---- termination: with Lstat first the recursion only descends into real directories, so fuel bounded by the number
+   of entries at or below p is always enough (EFuel is the model's mark of "did not come back") ---- *)
+
+Theorem remove_terminates : forall excl_name excl_path cancelled fuel s p,
+  dirs_above s p -> size_below s p < fuel ->
+  snd (remove_top excl_name excl_path Gen.rm cancelled fuel s p) <> Err EFuel.
+Proof. by_rm remove_terminates_l. Qed.
+Print Assumptions remove_terminates.
+
+Theorem clean_dir_terminates : forall excl_name excl_path cancelled fuel s p,
+  dirs_above s p -> not_link (lookup s p) -> size_below s p < fuel ->
+  snd (clean_dir excl_name excl_path Gen.rm cancelled fuel s p) <> Err EFuel.
+Proof. by_rm clean_dir_terminates_l. Qed.
+Print Assumptions clean_dir_terminates.
+
+
+(* ---- completeness ---- *)
+
+(* no exclusion, live context, sufficient fuel: the call SUCCEEDS and nothing is left at or below p — links (dangling
+   or not) included, since [lookup] does not follow them.  No premise about the result is needed. *)
+Theorem remove_succeeds_and_is_complete : forall excl_name excl_path fuel s p,
+  (forall n, excl_name n = false) -> (forall q, excl_path q = false) ->
+  wf s -> dirs_above s p -> size_below s p < fuel ->
+  snd (remove_top excl_name excl_path Gen.rm false fuel s p) = Ok /\
+  forall q, under p q -> lookup (fst (remove_top excl_name excl_path Gen.rm false fuel s p)) q = None.
+Proof. by_rm remove_succeeds_l. Qed.
+Print Assumptions remove_succeeds_and_is_complete.
+
+Theorem clean_dir_succeeds_and_is_complete : forall excl_name excl_path fuel s p,
+  (forall n, excl_name n = false) -> (forall q, excl_path q = false) ->
+  wf s -> dirs_above s p -> lookup s p = Some EDir -> size_below s p < fuel ->
+  snd (clean_dir excl_name excl_path Gen.rm false fuel s p) = Ok /\
+  lookup (fst (clean_dir excl_name excl_path Gen.rm false fuel s p)) p = Some EDir /\
+  forall q, under p q -> q <> p -> lookup (fst (clean_dir excl_name excl_path Gen.rm false fuel s p)) q = None.
+Proof. by_rm clean_dir_succeeds_l. Qed.
+Print Assumptions clean_dir_succeeds_and_is_complete.
+
+(* the conditional form, for any fuel and either state of the context: whenever the call reports success *)
+Theorem remove_complete : forall excl_name excl_path cancelled fuel s p,
+  (forall n, excl_name n = false) -> (forall q, excl_path q = false) ->
+  wf s -> dirs_above s p ->
+  snd (remove_top excl_name excl_path Gen.rm cancelled fuel s p) = Ok ->
+  forall q, under p q -> lookup (fst (remove_top excl_name excl_path Gen.rm cancelled fuel s p)) q = None.
+Proof.
+  by_rm (fun en ep c fuel s p Hen Hep Hwf Hd Hok => remove_complete_l en ep Hen Hep c fuel s p p Hwf Hd Hok).
+Qed.
+Print Assumptions remove_complete.
+
+Theorem clean_dir_complete : forall excl_name excl_path cancelled fuel s p,
+  (forall n, excl_name n = false) -> (forall q, excl_path q = false) ->
+  wf s -> dirs_above s p -> lookup s p = Some EDir ->
+  snd (clean_dir excl_name excl_path Gen.rm cancelled fuel s p) = Ok ->
+  lookup (fst (clean_dir excl_name excl_path Gen.rm cancelled fuel s p)) p = Some EDir /\
+  forall q, under p q -> q <> p -> lookup (fst (clean_dir excl_name excl_path Gen.rm cancelled fuel s p)) q = None.
+Proof. by_rm clean_dir_complete_l. Qed.
+Print Assumptions clean_dir_complete.
+
+(* ---- exclusions (the rule of the D11 repair: caller's path for the top entry, entry name below it) ----
+   [protected]: p itself when the caller's path is excluded; below p, an entry whose own name is excluded or that lies
+   below a directory whose name is excluded.  Such an entry survives unchanged and all its ancestors remain directories,
+   whatever the call returns. *)
+Theorem remove_keeps_excluded : forall excl_name excl_path cancelled fuel s p,
+  wf s -> dirs_above s p ->
+  forall q, protected excl_name excl_path p q -> lookup s q <> None ->
+  survives_with_ancestors s (fst (remove_top excl_name excl_path Gen.rm cancelled fuel s p)) q.
+Proof. by_rm remove_keeps_excluded_l. Qed.
+Print Assumptions remove_keeps_excluded.
+
+Theorem clean_dir_keeps_excluded : forall excl_name excl_path cancelled fuel s p,
+  wf s -> dirs_above s p -> not_link (lookup s p) ->
+  forall q, protected_below excl_name excl_path p q -> lookup s q <> None ->
+  survives_with_ancestors s (fst (clean_dir excl_name excl_path Gen.rm cancelled fuel s p)) q.
+Proof. by_rm clean_dir_keeps_excluded_l. Qed.
+Print Assumptions clean_dir_keeps_excluded.
+
+(* the attempts and the forced removal of the library satisfy the premise *)
+Theorem library_passes_confined : forall cancelled fuel,
+  pass_confined (remove0 Gen.rm cancelled fuel) /\ pass_confined (library_force Gen.priv).
+Proof.
+  intros c fuel. split; [|apply library_force_confined].
+  revert c fuel. by_rm remove0_pass_confined.
+Qed.
+Print Assumptions library_passes_confined.
+
+(* ---- garbage collection (these two also need the generated facts of garbageCollect) ---- *)
+Theorem gc_confined : forall cancelled old ord fuel s root,
+  dirs_above s root -> not_link (lookup s root) ->
+  forall q, ~ under root q ->
+  lookup (fst (garbage_collect Gen.rm Gen.gc cancelled old ord fuel s root)) q = lookup s q.
+Proof. by_rm_gc gc_confined_l. Qed.
+Print Assumptions gc_confined.
+
+(* the out-of-fuel mark of a child is propagated (all other errors of children are dropped, as in the code) *)
+Theorem gc_terminates : forall cancelled old ord fuel s root,
+  dirs_above s root -> not_link (lookup s root) -> size_below s root + 1 < fuel ->
+  snd (garbage_collect Gen.rm Gen.gc cancelled old ord fuel s root) <> Err EFuel.
+Proof. by_rm_gc gc_terminates_l. Qed.
+Print Assumptions gc_terminates.
+
+(* ---- the code BEFORE the fix (Stat-based tests only), kept as documentation of the repaired defect D10; the harness
+   replays these witnesses (tree/sub/lnk -> outside + tree/dangling; tree/a/up -> tree) on every run ---- *)
+Theorem remove_refuted_without_lstat :
+  exists s p q, dirs_above s p /\ ~ under p q /\
+    snd (remove_top noex_n noex_p before_fix_rm false 10 s p) = Ok /\
+    lookup (fst (remove_top noex_n noex_p before_fix_rm false 10 s p)) q <> lookup s q /\     (* an outside file is deleted *)
+    lookup (fst (remove_top noex_n noex_p before_fix_rm false 10 s p)) p <> None.              (* and the tree is still there *)
+Proof.
+  exists witness, [nm 3], [nm 1; nm 2].
+  destruct without_lstat_outside_deleted as [H1 [H2 [H3 H4]]].
+  split; [exact witness_dirs_above|]. split; [exact witness_not_under|]. split; [exact H1|].
+  split; [rewrite H2, H3; discriminate | rewrite H4; discriminate].
+Qed.
+Print Assumptions remove_refuted_without_lstat.
+
+(* a link to an ancestor: the fuel that remove_terminates proves sufficient for the repaired code — and seven times
+   more — runs out in the old code, which walks tree/a/up/a/up/... (on the OS: until ELOOP; exponentially many calls
+   when the directories have several entries) *)
+Theorem remove_terminates_refuted_without_lstat :
+  exists s p, dirs_above s p /\ size_below s p < 4 /\
+    snd (remove_top noex_n noex_p Gen.rm false 4 s p) = Ok /\
+    snd (remove_top noex_n noex_p before_fix_rm false 4 s p) = Err EFuel /\
+    snd (remove_top noex_n noex_p before_fix_rm false 30 s p) = Err EFuel.
+Proof.
+  exists loop_witness, [nm 3]. destruct loop_witness_facts as [H0 [H1 [H2 H3]]].
+  split; [exact loop_witness_dirs_above|]. split; [rewrite H0; repeat constructor|]. repeat split; assumption.
+Qed.
+Print Assumptions remove_terminates_refuted_without_lstat.
+
 (* ---- non-vacuity ---- *)
 Example c04_nonvacuous_remove :
-  let r := remove_top noex_n noex_p true false 10 witness [nm 3] in
+  let r := remove_top noex_n noex_p Gen.rm false 10 witness [nm 3] in
   snd r = Ok /\ lookup (fst r) [nm 1; nm 2] = Some (EFile 7) /\ lookup (fst r) [nm 3] = None /\
   lookup (fst r) [nm 3; nm 6] = None /\ lookup (fst r) [nm 1] = Some EDir.
 Proof. vm_compute. repeat split; reflexivity. Qed.
@@ -194,19 +214,19 @@ Proof. vm_compute. repeat split; reflexivity. Qed.
 (* name-based rule: excluding the NAME of the link keeps it and its ancestors; excluding only the caller's path keeps
    the (emptied) root and nothing below it *)
 Example c04_nonvacuous_excluded :
-  let r := remove_top (fun n => name_eqb n (nm 5)) (fun q => path_eqb q [nm 5]) true false 10 witness [nm 3] in
+  let r := remove_top (fun n => name_eqb n (nm 5)) (fun q => path_eqb q [nm 5]) Gen.rm false 10 witness [nm 3] in
   snd r = Ok /\ lookup (fst r) [nm 3; nm 4; nm 5] = Some (ELink [nm 1]) /\ lookup (fst r) [nm 3; nm 4] = Some EDir /\
   lookup (fst r) [nm 3] = Some EDir /\ lookup (fst r) [nm 3; nm 6] = None.
 Proof. vm_compute. repeat split; reflexivity. Qed.
 
 Example c04_nonvacuous_root_excluded :
-  let r := remove_top noex_n (fun q => path_eqb q [nm 3]) true false 10 witness [nm 3] in
+  let r := remove_top noex_n (fun q => path_eqb q [nm 3]) Gen.rm false 10 witness [nm 3] in
   snd r = Ok /\ lookup (fst r) [nm 3] = Some EDir /\ children (fst r) [nm 3] = [] /\ lookup (fst r) [nm 1; nm 2] = Some (EFile 7).
 Proof. vm_compute. repeat split; reflexivity. Qed.
 
 Example c04_nonvacuous_clean_gc :
-  snd (clean_dir noex_n noex_p true false 10 witness [nm 3]) = Ok /\
-  children (fst (clean_dir noex_n noex_p true false 10 witness [nm 3])) [nm 3] = [] /\
-  lookup (fst (garbage_collect true false (fun _ => true) (fun _ ns => rev ns) 10 witness [nm 3])) [nm 1; nm 2] = Some (EFile 7) /\
-  lookup (fst (garbage_collect false false (fun _ => true) (fun _ ns => ns) 10 witness [nm 3])) [nm 1; nm 2] = None.
+  snd (clean_dir noex_n noex_p Gen.rm false 10 witness [nm 3]) = Ok /\
+  children (fst (clean_dir noex_n noex_p Gen.rm false 10 witness [nm 3])) [nm 3] = [] /\
+  lookup (fst (garbage_collect Gen.rm Gen.gc false (fun _ => true) (fun _ ns => rev ns) 10 witness [nm 3])) [nm 1; nm 2] = Some (EFile 7) /\
+  lookup (fst (garbage_collect before_fix_rm before_fix_gc false (fun _ => true) (fun _ ns => ns) 10 witness [nm 3])) [nm 1; nm 2] = None.
 Proof. vm_compute. repeat split; reflexivity. Qed.
